@@ -1179,6 +1179,36 @@ impl<'a, 'w> Executor<'a, 'w> {
         // this thread while the pool runs the build.
         let wtxn = SendPtr(wtxn as *mut RwTxn<'a>);
 
+        // several threads: at every instrumented atomic operation of the id generator a thread waits (up to 150 us) for
+        // another thread to reach one too, then both go on together — the narrow windows between two atomic operations
+        // of one requester are then actually visited by another one; a random yield on top
+        if threads > 1 {
+            arroy::verif::atomic::set_yield_hook(Some(std::sync::Arc::new(|_op| {
+                use std::sync::atomic::AtomicU64;
+                static ARRIVALS: AtomicU64 = AtomicU64::new(0);
+                static JITTER: AtomicU64 = AtomicU64::new(0x9E37_79B9_7F4A_7C15);
+                let n = ARRIVALS.fetch_add(1, Ordering::SeqCst);
+                if n % 2 == 0 {
+                    let t0 = std::time::Instant::now();
+                    loop {
+                        if ARRIVALS.load(Ordering::SeqCst) >= n + 2 {
+                            break;
+                        }
+                        if t0.elapsed() > std::time::Duration::from_micros(150) {
+                            // nobody came: close the pair alone
+                            ARRIVALS.fetch_add(1, Ordering::SeqCst);
+                            break;
+                        }
+                        std::hint::spin_loop();
+                    }
+                }
+                let x = JITTER.fetch_add(0x9E37_79B9_7F4A_7C15, Ordering::Relaxed);
+                let h = (x ^ (x >> 29)).wrapping_mul(0xBF58_476D_1CE4_E5B9);
+                if h >> 62 == 0 {
+                    std::thread::yield_now();
+                }
+            })));
+        }
         arroy::verif::start_recording();
         let result = catch_unwind(AssertUnwindSafe(|| {
             pool.install(|| {
@@ -1199,6 +1229,9 @@ impl<'a, 'w> Executor<'a, 'w> {
             })
         }));
         let events = arroy::verif::take_events();
+        if threads > 1 {
+            arroy::verif::atomic::set_yield_hook(None);
+        }
         let polls = calls.load(Ordering::SeqCst);
         self.last_polls = polls;
         let hit = limit_hit.load(Ordering::SeqCst);
